@@ -423,6 +423,12 @@ class WorkQueue:
         if parent is not None and parent in group_set:
             self._add_group(parent, group_set, new_root_groups, visited, parent_task)
 
+        if parent is not None and parent not in self._group_nodes:
+            # The parent has already been removed because it (or one of its
+            # ancestors) failed, so this late arriving group will never be
+            # delivered either and must not become part of the graph.
+            return
+
         self._group_nodes[group] = _GroupNode()
 
         if parent_task is None and not parent:
